@@ -675,6 +675,11 @@ class Fxp():
             if set_inaccuracy and val.status['inaccuracy']:
                 self.status['inaccuracy'] = True
 
+            # the scaled raw value of an integer-valued Fxp gets fractional bits when the
+            # destination has fewer fractional bits: they must reach the rounding step
+            if vdtype == int and self.n_frac < val.n_frac:
+                vdtype = float
+
             # force return raw value for better precision
             val = val.val * 2**(self.n_frac - val.n_frac)
             raw = True
